@@ -134,6 +134,10 @@ Definition v_out (c : world_case) (cfg : config) (w : world) (x : out) : val :=
   | OutQuery a => v_answer a
   | OutBlocked => VL [VZ 1; VL []; v_bals c (w_l w); v_supply c (w_l w); v_state (w_o w)]
   | OutAppPanic => VL [VZ 2; VL [VL [VS "wrapped"; VB true]]; v_bals c (w_l w); v_supply c (w_l w); v_state (w_o w)]
+  | OutExtPanic tr =>
+      (* the call that panicked is recorded as refused *)
+      let tr' := match rev tr with (c0, _) :: r => rev ((c0, false) :: r) | [] => [] end in
+      VL [VZ 2; VLs (v_call cfg) tr'; v_bals c (w_l w); v_supply c (w_l w); v_state (w_o w)]
   end.
 
 Fixpoint run_world_ops (c : world_case) (cfg : config) (e : env) (w : world) (ops : list op) : list val :=
